@@ -467,6 +467,10 @@ class _Run:
                 return
             target = ('attr', obj, tgt.attr)
             self.emit('aug' if aug else 'store', s, st, target=target, base=obj, value=v)
+            if tag(obj) == 'record' and isinstance(tgt.value, ast.Name) and st.env.get(tgt.value.id) == obj and \
+                    any(nm == tgt.attr for nm, _ in obj[2]):
+                # a helper object held in a local (or `self` of one of its methods): the store updates that object
+                st.env[tgt.value.id] = ('record', obj[1], tuple((nm, (v if nm == tgt.attr else old)) for nm, old in obj[2]))
             return
         if isinstance(tgt, ast.Subscript):
             base_ast = _store_base(tgt)
@@ -1326,7 +1330,14 @@ class _Run:
                 kws.append((k.arg, v))
         args = tuple(args)
         kws = tuple(sorted(kws, key=lambda kv: (kv[0] is None, kv[0] or '', T.key(kv[1]))))
-        return self.call(fn, args, kws, e, st)
+        self._recv_update = None
+        out = self.call(fn, args, kws, e, st)
+        upd = getattr(self, '_recv_update', None)
+        if upd is not None and isinstance(e.func, ast.Attribute) and isinstance(e.func.value, ast.Name) and \
+                st.env.get(e.func.value.id) == upd[0]:
+            st.env[e.func.value.id] = upd[1]
+        self._recv_update = None
+        return out
 
     def call(self, fn, args, kws, node, st):
         tg = tag(fn)
@@ -1448,7 +1459,11 @@ class _Run:
                 init = self.p.find_method(k, '__init__')
                 call_t = ('call', fn, args, kws)
                 if init is not None:
+                    n_before, g0 = len(self.events), st.guard
                     self.call_func(init, inst, args, kws, node, st, call_t=call_t)
+                    rec = self._instance_as_record(q, inst, self.events[n_before:], g0)
+                    if rec is not None:
+                        return rec
                 else:
                     self.emit('call', node, st, call=call_t)
                 return inst
@@ -1529,6 +1544,27 @@ class _Run:
             return ('mcall', recv, 'keys', (), ())
         return ('mcall', recv, name, args, kws)
 
+    def _instance_as_record(self, q, inst, events, g0):
+        """A small helper object whose constructor just stores its arguments (or values computed from them) in attributes
+        is the record of those attributes: its methods then read them like the locals they replace.  Only for classes
+        that are not one of the package's public classes, and only when every attribute store of the constructor is
+        unconditional and made exactly once."""
+        from sa.anchors import _public_class
+        k = self.p.classes[q]
+        if _public_class(self.p, k):
+            return None
+        stores = [e for e in events if e.kind in ('store', 'aug') and tag(e.target) == 'attr' and e.target[1] == inst]
+        if not stores or not any(e.kind == 'call' and getattr(e, 'inlined', False) for e in events[:1]):
+            return None
+        fields = {}
+        for e in stores:
+            if e.kind != 'store' or e.target[2] in fields or e.guard != g0 or e.loops != tuple(self.loopstack):
+                return None
+            fields[e.target[2]] = e.value
+        # nothing else may write the object's attributes later on: checked where it would happen (a store to a field of
+        # a record is an event on an unknown base and changes nothing here)
+        return ('record', q, tuple(sorted(fields.items())))
+
     def call_func(self, f: Func, recv, args, kws, node, st, call_t=None):
         """Call of a package function: bind, optionally inline."""
         if recv is not None and not f.is_static:
@@ -1573,6 +1609,12 @@ class _Run:
                 new_val = summ.env.get(nm)
                 if new_val is not None and new_val != old_val and nm in st.env:
                     st.env[nm] = new_val
+        if recv is not None and tag(recv) == 'record' and not f.is_static:
+            a0 = f.node.args
+            first = (a0.posonlyargs + a0.args)[0].arg if (a0.posonlyargs + a0.args) else None
+            after = summ.env.get(first) if first else None
+            if tag(after) == 'record' and after[1] == recv[1] and after != recv:
+                self._recv_update = (recv, after)       # the method changed attributes of its object
         if f.name == '__init__':
             return recv
         return summ.ret
